@@ -22,7 +22,8 @@ RULE = ('case = (stream, cut set, encoding, error policy, maxread, transport); e
         'at least one cut (or a maxread boundary) falls inside a multi-byte character; distinct by construction')
 ASSUMPTIONS = ['streams of <= 12 bytes that do not end inside a character; <= 2 cuts (quick) / <= 3 cuts (thorough)',
                'asyncio path: awaited expect calls on the real event loop with a controlled selector, on a pty and on a socket descriptor']
-REQUIRED_FLAGS = {'cut_inside_char': 1, 'bytes_mode': 1, 'invalid_bytes_replaced': 1}
+REQUIRED_FLAGS = {'cut_inside_char': 1, 'bytes_mode': 1, 'invalid_bytes_replaced': 1, 'call_aborted_then_retried': 1,
+                  'aborted_while_decoder_holds_partial_char': 1}
 
 
 class Rec(object):
@@ -66,7 +67,7 @@ def tasks(tier):
     return out
 
 
-def run_case(task, enc, raw, errors, cuts, maxread):
+def run_case(task, enc, raw, errors, cuts, maxread, intr=None):
     env = E.Env(Chooser(()))
     link = None
     obs = {}
@@ -90,8 +91,14 @@ def run_case(task, enc, raw, errors, cuts, maxread):
             pieces.append(raw[prev:c])
             prev = c
         t = 0.01
-        for p in pieces:
+
+        def interrupt():
+            # what a signal handler that raises does to a call blocked in select()/poll(): e.g. the user's Ctrl-C
+            raise KeyboardInterrupt()
+        for i, p in enumerate(pieces):
             link.w(p, at=t)
+            if intr == i:
+                env.add('fn', interrupt, at=t + 0.005)
             t += 0.01
         link.exit(0, at=t)
         want = raw if enc is None else codecs.decode(raw, enc, errors)
@@ -105,17 +112,25 @@ def run_case(task, enc, raw, errors, cuts, maxread):
             from mc import aio
             loop = aio.new_loop()
             asyncio.set_event_loop(loop)
+        def retrying(fn):
+            # a call aborted by an exception that is neither EOF nor TIMEOUT consumed nothing: the program tries again
+            for attempt in range(3):
+                try:
+                    return fn()
+                except KeyboardInterrupt:
+                    obs['interrupted'] = obs.get('interrupted', 0) + 1
+            raise RuntimeError('interrupted three times')
         try:
             if mid is not None and mid not in (b'(', '(') and mid.strip():
                 if loop is not None:
                     loop.run_until_complete(sp.expect_exact(mid, async_=True))
                 else:
-                    sp.expect_exact(mid)
+                    retrying(lambda: sp.expect_exact(mid))
                 got += sp.before + sp.after
             if loop is not None:
                 loop.run_until_complete(sp.expect(EOF, async_=True))
             else:
-                sp.expect(EOF)
+                retrying(lambda: sp.expect(EOF))
             got += sp.before
         except TIMEOUT as e:
             viol = ('timeout', 'TIMEOUT before EOF, before=%r' % (sp.before,))
@@ -126,7 +141,7 @@ def run_case(task, enc, raw, errors, cuts, maxread):
                 types_ok = False
             else:
                 logged += it
-        obs = dict(got=got, logged=logged, want=want)
+        obs.update(got=got, logged=logged, want=want)
         if viol is None:
             if type(got) is not type(want):
                 viol = ('type', 'delivered %r (%s) in %s mode' % (got, type(got).__name__, enc))
@@ -186,13 +201,21 @@ def cases(task):
         for maxread in ((1, 2000) if q else (1, 3, 2000)):
             for k in range(0, maxcuts + 1):
                 for cuts in itertools.combinations(range(1, len(raw)), k):
-                    yield enc, raw, errors, cuts, maxread
+                    yield enc, raw, errors, cuts, maxread, None
+                    if k and not task.get('aio') and task['transport'] != 'popen' and maxread != 1:
+                        # the call that is waiting after piece i is aborted by an exception (not EOF/TIMEOUT), then retried
+                        for i in range(k):
+                            yield enc, raw, errors, cuts, maxread, i
 
 
 def run_task(task):
     acc = Acc()
-    for enc, raw, errors, cuts, maxread in cases(task):
-        obs, viol = run_case(task, enc, raw, errors, cuts, maxread)
+    for enc, raw, errors, cuts, maxread, intr in cases(task):
+        obs, viol = run_case(task, enc, raw, errors, cuts, maxread, intr)
+        if obs.get('interrupted'):
+            acc.flags['call_aborted_then_retried'] += 1
+            if cuts[intr] in char_boundaries(raw, enc, errors):
+                acc.flags['aborted_while_decoder_holds_partial_char'] += 1
         acc.execs += 1
         acc.transitions += 1 + len(cuts)
         inside = char_boundaries(raw, enc, errors)
@@ -206,8 +229,10 @@ def run_task(task):
         acc.outcomes['%s/%s/%s' % (enc, errors, 'viol' if viol else 'ok')] += 1
         if viol:
             key = '%s%s:%s:%s:%s' % (task['transport'], '+asyncio' if task.get('aio') else '', enc, errors, viol[0])
-            acc.violation(key, 'stream %r cuts %r maxread %d: %s' % (raw, cuts, maxread, viol[1]),
-                          dict(task=task, errors=errors, cuts=list(cuts), maxread=maxread))
+            if intr is not None:
+                key += ':after-aborted-call'
+            acc.violation(key, 'stream %r cuts %r maxread %d%s: %s' % (raw, cuts, maxread, '' if intr is None else ', call aborted by KeyboardInterrupt after piece %d and retried' % intr, viol[1]),
+                          dict(task=task, errors=errors, cuts=list(cuts), maxread=maxread, intr=intr))
     acc.states += 1
     acc.sample(dict(task=task, stream=repr(STREAMS[task['stream']][1]), cuts=[1, 4], errors='strict', maxread=2000))
     return acc
@@ -218,8 +243,9 @@ def replay(spec):
     spec = unjson(spec)
     task = spec['task']
     enc, raw, errs = STREAMS[task['stream']]
-    obs, viol = run_case(task, enc, raw, spec['errors'], tuple(spec['cuts']), spec['maxread'])
+    obs, viol = run_case(task, enc, raw, spec['errors'], tuple(spec['cuts']), spec['maxread'], spec.get('intr'))
     out = {'observation': {k: repr(v) for k, v in obs.items()}, 'violation': None}
     if viol:
-        out['violation'] = {'key': '%s%s:%s:%s:%s' % (task['transport'], '+asyncio' if task.get('aio') else '', enc, spec['errors'], viol[0]), 'msg': viol[1]}
+        out['violation'] = {'key': '%s%s:%s:%s:%s%s' % (task['transport'], '+asyncio' if task.get('aio') else '', enc, spec['errors'], viol[0],
+                                                         ':after-aborted-call' if spec.get('intr') is not None else ''), 'msg': viol[1]}
     return out
